@@ -273,6 +273,11 @@ def _exhaustive(ck, P, cfg):
     # (function, the statement that records "not found", what it means)
     h = P.fn("handle_remote_anti_msg")
     pub = [n for n in h.walk() if n.k == "BinaryOperator" and n.op == "=" and X.show(n.children[0]).endswith("early_antis")]
+    if not pub:
+        # parked through a helper extracted from the handler: its call is the "not found" outcome
+        for g2 in Q.with_helpers(P, h)[1:]:
+            if any(n.k == "BinaryOperator" and n.op == "=" and X.show(n.children[0]).endswith("early_antis") for n in g2.walk()):
+                pub = list(h.calls(g2.name))
     c = P.fn("check_early_anti_messages")
     notfound = [r for r in c.walk() if r.k == "ReturnStmt" and r.children and X.const_int(r.children[0]) == 0]
     ck.expect("C02.8", len(pub) + len(notfound), 2, "not-found outcomes of the two matchers")
